@@ -153,6 +153,39 @@ fn dot2(v: &[f64], w: &[f64]) -> (f64, f64) {
     (p + s, abs)
 }
 
+/// all values obtainable by adding the given numbers in any order with any parenthesisation
+fn assoc_sums(xs: &[f64]) -> Vec<f64> {
+    if xs.len() == 1 {
+        return vec![xs[0]];
+    }
+    let n = xs.len();
+    let mut out: Vec<f64> = vec![];
+    // split into two non-empty subsets; element 0 always goes left (unordered splits)
+    for mask in 0..(1u32 << (n - 1)) {
+        let mut left = vec![xs[0]];
+        let mut right = vec![];
+        for i in 1..n {
+            if mask & (1 << (i - 1)) != 0 {
+                left.push(xs[i]);
+            } else {
+                right.push(xs[i]);
+            }
+        }
+        if right.is_empty() {
+            continue;
+        }
+        for a in assoc_sums(&left) {
+            for b in assoc_sums(&right) {
+                let s = a + b;
+                if !out.iter().any(|o| o.to_bits() == s.to_bits()) {
+                    out.push(s);
+                }
+            }
+        }
+    }
+    out
+}
+
 fn k_idx(outs: &[ExecOut], o: &ExecOut) -> usize {
     outs.iter().position(|x| std::ptr::eq(x, o)).unwrap_or(0)
 }
@@ -443,14 +476,20 @@ impl Prop for C16 {
                     }
                 }
             }
-            // one worker: no reassociation is possible, so the threaded product must be the sequential one
-            // bit for bit on ANY data (a fused multiply-add or any other change of the arithmetic shows here)
-            if cpus == 1 && o.r1.to_bits() != o.seq.to_bits() {
-                return violation(
-                    "value-mismatch",
-                    "dot_f64:one-worker",
-                    format!("len={len} cpus=1 schedule#{k}: with a single worker dot_f64 = {:e} ({:016x}) but the sequential dot = {:e} ({:016x}); there is nothing to reassociate", o.r1, o.r1.to_bits(), o.seq, o.seq.to_bits()),
-                );
+            // very short vectors: every way of associating (and commuting) the rounded products can be
+            // enumerated, for any partition and any number of workers. The result must be one of them, bit for
+            // bit — reassociation is allowed, a different arithmetic (a fused multiply-add, say) is not.
+            if case.kind == Kind::General && (2..=4).contains(&len) {
+                let prods: Vec<f64> = case.v.iter().zip(case.w.iter()).map(|(a, b)| a * b).collect();
+                let cands = assoc_sums(&prods);
+                stats.count("probe.association_set_checked");
+                if !cands.iter().any(|c| c.to_bits() == o.r1.to_bits()) {
+                    return violation(
+                        "value-mismatch",
+                        "dot_f64:association-set",
+                        format!("len={len} cpus={cpus} schedule#{k}: dot_f64 = {:e} ({:016x}) is none of the {} values obtainable by summing the rounded products in any order/association (sequential: {:e} ({:016x}))", o.r1, o.r1.to_bits(), cands.len(), o.seq, o.seq.to_bits()),
+                    );
+                }
             }
             // basis probes: index i covered exactly once
             for (j, &i) in case.probes.iter().enumerate() {
@@ -682,6 +721,6 @@ impl Prop for C16 {
     }
 
     fn required_probes(&self, _tier: Tier) -> Vec<&'static str> {
-        vec!["len_lt_w", "len_mod_w_nonzero", "len_zero", "chunk_zero", "last_worker_bigger", "worker_order_ne_spawn_order", "main_blocked_on_join", "history_other_product_before", "in_place_change_checked"]
+        vec!["len_lt_w", "len_mod_w_nonzero", "len_zero", "chunk_zero", "last_worker_bigger", "worker_order_ne_spawn_order", "main_blocked_on_join", "history_other_product_before", "in_place_change_checked", "association_set_checked"]
     }
 }
